@@ -1122,7 +1122,11 @@ class BaseResolver:
                 else:
                     ndots = self.ndots
                 for suffix in search_list:
-                    qnames_to_try.append(qname + suffix)
+                    try:
+                        qnames_to_try.append(qname + suffix)
+                    except dns.name.NameTooLong:
+                        # This candidate cannot be asked; the others still can.
+                        pass
                 if len(qname) > ndots:
                     # The name has at least ndots dots, so we should try an
                     # absolute query first.
